@@ -55,6 +55,8 @@ MUTANTS = [
     ("C10", "R3", DOC, "        if let Some(existing) = self.namespaces.iter().find(|ns| ns.namespace == url) {\n            self.namespace_lookup\n                .insert(original_abbreviation.to_string(), existing.clone());\n            return;\n        }\n", "", "registry not consulted: one URI gets a Namespace per prefix"),
     ("C09", "R2", DOC, "if let Some(existing) = self.namespaces.iter().find(|ns| ns.namespace == url) {", "if let Some(existing) = self.namespaces.iter().find(|ns| ns.abbreviation == original_abbreviation) {", "prefix bound to the entry with the same abbreviation instead of the same URI"),
     ("C10", "R3", DOC, "let rust_mod_name = create_mod_name_for_namespace(&abbreviation);\n        let ns = Rc::new(Namespace {", "let rust_mod_name = create_mod_name_for_namespace(original_abbreviation);\n        let ns = Rc::new(Namespace {", "module named after the declared prefix, not the unique abbreviation"),
+    ("C14", "R1", DOC, "namespace.chars().filter(char::is_ascii_alphanumeric).take(3).collect()", "namespace.chars().filter(|c| c.is_alphanumeric()).take(3).collect()", "module abbreviation keeps non-ASCII alphanumerics (²)"),
+    ("C14", "R1", DOC, "namespace.chars().filter(char::is_ascii_alphanumeric).take(3).collect()", "namespace.chars().take(3).collect()", "module abbreviation keeps any character"),
     ("C17", "R3", MAIN, "|f| Path::new(f).to_path_buf());", '|f| Path::new(f).with_extension("rs"));', "--output path gets its extension replaced"),
     ("C17", "R3", MAIN, 'let output_file = to_file_name.map_or_else(|| from_file_path.with_extension("rs"), |f| Path::new(f).to_path_buf());',
      'let output_file = match to_file_name {\n        Some(f) if f.ends_with(".rs") => Path::new(f).to_path_buf(),\n        _ => from_file_path.with_extension("rs"),\n    };', "--output ignored unless it ends in .rs"),
